@@ -179,3 +179,8 @@ pub fn real_mono_s() -> f64 {
     }
     ts.tv_sec as f64 + ts.tv_nsec as f64 * 1e-9
 }
+
+/// The virtual clock installed for the calling thread, if any.
+pub fn current() -> Option<VClock> {
+    CURRENT.with(|c| c.borrow().as_ref().cloned())
+}
